@@ -13,6 +13,7 @@
 import GoSecs.Lemmas.Supervisor
 import GoSecs.Lemmas.SupervisorReplay
 import GoSecs.Lemmas.SupervisorTags
+import GoSecs.Lemmas.SupervisorGen
 import GoSecs.Gen.Consts
 import GoSecs.Gen.Funcs
 import GoSecs.Gen.Facts
@@ -63,6 +64,141 @@ theorem write_sites_gen :
 
 /-- Each commit's CAS pair is an edge of the E37 diagram. -/
 theorem commit_cas_pairs_are_edges : Edge .NC .NS ∧ Edge .NS .S ∧ Edge .S .NS := by simp [Edge]
+
+/-! ## Tie of the per-goroutine CODE to the model's atomic actions (effect-mode translation, regenerated each run)
+
+  `Gen.hsms_supervisor_step`, `…_CommitConnected`, … are re-translated from hsms/supervisor.go on every run
+  (state passing for the receiver; atomics as fields with sequential meaning; every atomic operation, every
+  `inject` / `react` / `emit` / `teardown` call recorded in a trace).  `Loc` (Lemmas/SupervisorSeq.lean) is the part of
+  a configuration one such call touches; `(locOf c).enc s0` is the Go supervisor value of configuration `c` (all
+  other fields arbitrary, from `s0`).  Sequential meaning = one goroutine's run between its own atomic operations;
+  the interleavings are the model's (`run`), what is tied here is each thread's local code. -/
+
+/-- **`step_gen`.** For every configuration with the run goroutine idle and `e` next in the queue, every supervisor
+    value encoding it, every event as the injectors encode it (`Ev.wire`) and every oracle list (the close-timeout
+    provider's answer): the regenerated `step` does not panic or spin; the supervisor it returns is the encoding
+    of the configuration the model reaches by `runLoad; runCommit`; its trace is exactly `stepLoc`'s (consume
+    [Load, CAS] — closed latch — Load state — stale select-lost abandon — Load generation / dwell for a tagged
+    disconnect / T7 — CAS for T7, nothing for a superseded select, dwell.Add(1) + Store, or Store — deduped
+    fireTransition — close latch and teardown); and the `react` / `emit` calls in it are the model's new reactions
+    and notifications. -/
+theorem step_gen (s0 : Gen.hsms_supervisor) (c : Cfg) (e : Ev) (q : List Ev) (orc : List Go.Val)
+    (hst : c.stopped = false) (hpc : c.pc = .idle) (hq : c.queue = e :: q) (hok : (locOf c).ok) (ht : e.tagOk) :
+    Gen.hsms_supervisor_step ((locOf c).enc s0) e.wire orc =
+      some ((locOf (run c [.runLoad, .runCommit])).enc s0,
+            (stepLoc (envOf s0) (locOf c) e orc).2.1, (stepLoc (envOf s0) (locOf c) e orc).2.2) ∧
+    (run c [.runLoad, .runCommit]).reactions = c.reactions ++ reactsOf (stepLoc (envOf s0) (locOf c) e orc).2.1 ∧
+    (run c [.runLoad, .runCommit]).emitted = c.emitted ++ emitsOf (stepLoc (envOf s0) (locOf c) e orc).2.1 := by
+  refine ⟨?_, stepLoc_effects (envOf s0) c e q orc hst hpc hq⟩
+  rw [step_gen_loc e s0 (locOf c) orc hok ht, stepLoc_model (envOf s0) c e q orc hst hpc hq]
+
+/-- `step_gen` on the thread-local state alone: for EVERY supervisor value whose modelled fields encode some
+    `Loc` (any state, any lastReacted, closed or not, any counters in range) and every event. -/
+theorem step_gen_local (s0 : Gen.hsms_supervisor) (l : Loc) (e : Ev) (orc : List Go.Val) (hok : l.ok) (ht : e.tagOk) :
+    Gen.hsms_supervisor_step (l.enc s0) e.wire orc =
+      some ((stepLoc (envOf s0) l e orc).1.enc s0, (stepLoc (envOf s0) l e orc).2.1, (stepLoc (envOf s0) l e orc).2.2) :=
+  step_gen_loc e s0 l orc hok ht
+
+/-- The order of `step`'s atomic operations, spelled out on three paths (production supervisor: no test hook).
+    A current-generation disconnect from Selected: state is loaded BEFORE the generation, then a plain Store. -/
+theorem step_trace_disconnect (n g d : Nat) (orc : List Go.Val) :
+    (stepLoc ⟨false, false, false⟩ ⟨.S, .S, false, n, g, d⟩ (.disc g) orc).2.1 =
+      [.atomic "supervisor.state" "Load" [], .atomic "supervisor.generation" "Load" [],
+       .atomic "supervisor.state" "Store" [.int 0],
+       .call "hsms.supervisor.emit" [.int 2, .int 0], .call "hsms.supervisor.react" [.int 2, .int 0]] := by
+  simp [stepLoc, consumeLoc, staleLoc, storeLoc, reactLoc, latchLoc, transition, fireTr, stV]
+
+/-- A current-dwell T7 expiry from NotSelected: state, then dwell, then a CompareAndSwap (never a plain Store). -/
+theorem step_trace_t7 (n g d : Nat) (orc : List Go.Val) :
+    (stepLoc ⟨false, false, false⟩ ⟨.NS, .NS, false, n, g, d⟩ (.t7 d) orc).2.1 =
+      [.atomic "supervisor.state" "Load" [], .atomic "supervisor.dwell" "Load" [],
+       .atomic "supervisor.state" "CompareAndSwap" [.int 1, .int 0],
+       .call "hsms.supervisor.emit" [.int 1, .int 0], .call "hsms.supervisor.react" [.int 1, .int 0]] := by
+  simp [stepLoc, consumeLoc, staleLoc, storeLoc, reactLoc, latchLoc, transition, fireTr, stV]
+
+/-- Once closed, an event costs no atomic operation at all (except the select-lost bookkeeping). -/
+theorem step_trace_closed (env : Env) (st lr : St) (n g d : Nat) (orc : List Go.Val) :
+    (stepLoc env ⟨st, lr, true, n, g, d⟩ .tcpUp orc).2.1 = [] := by
+  simp [stepLoc, consumeLoc]
+
+/-- **`commit_connected_gen`.** `CommitConnected` bumps generation and dwell, CASes NotConnected → NotSelected and
+    then injects evTCPUp — or rolls both counters back; the supervisor it returns is the model's after
+    `casConnected; injStart`, its result says whether the CAS happened, and what it injects is what the model
+    enqueues. -/
+theorem commit_connected_gen (s0 : Gen.hsms_supervisor) (c : Cfg) (hst : c.stopped = false)
+    (hp : c.pendStart = none) (hok : (locOf c).ok) :
+    Gen.hsms_supervisor_CommitConnected ((locOf c).enc s0) =
+      ((locOf (run c [.casConnected, .injStart])).enc s0, (commitConnectedLoc (locOf c)).2.1,
+        (commitConnectedLoc (locOf c)).2.2) ∧
+    (run c [.casConnected, .injStart]).queue.map Ev.wire =
+      c.queue.map Ev.wire ++ injectsOf (commitConnectedLoc (locOf c)).2.2 := by
+  have h := commitConnectedLoc_model c hst hp
+  refine ⟨by rw [commitConnected_gen_loc s0 _ hok, h.1], ?_⟩
+  rw [h.2.1, h.2.2.1]; split <;> simp
+
+/-- **`commit_selected_gen`.** CAS NotSelected → Selected, then inject evSelectAccepted (`casSelected; injRecv`). -/
+theorem commit_selected_gen (s0 : Gen.hsms_supervisor) (c : Cfg) (hst : c.stopped = false) (hp : c.pendRecv = none) :
+    Gen.hsms_supervisor_CommitSelected ((locOf c).enc s0) =
+      ((locOf (run c [.casSelected, .injRecv])).enc s0, (commitSelectedLoc (locOf c)).2.1,
+        (commitSelectedLoc (locOf c)).2.2) ∧
+    (run c [.casSelected, .injRecv]).queue.map Ev.wire =
+      c.queue.map Ev.wire ++ injectsOf (commitSelectedLoc (locOf c)).2.2 := by
+  have h := commitSelectedLoc_model c hst hp
+  refine ⟨by rw [commitSelected_gen_loc s0 _, h.1], ?_⟩
+  rw [h.2.1, h.2.2.1]; split <;> simp
+
+/-- **`commit_select_lost_gen`.** Announce (deselectPending.Add(1)), open the dwell, CAS Selected → NotSelected,
+    then inject evSelectLost — or take both back (`casSelectLost; injRecv`). -/
+theorem commit_select_lost_gen (s0 : Gen.hsms_supervisor) (c : Cfg) (hst : c.stopped = false)
+    (hp : c.pendRecv = none) (hok : (locOf c).ok) (hd : (locOf c).desel + 1 < 2 ^ 31) :
+    Gen.hsms_supervisor_CommitSelectLost ((locOf c).enc s0) =
+      ((locOf (run c [.casSelectLost, .injRecv])).enc s0, (commitSelectLostLoc (locOf c)).2.1,
+        (commitSelectLostLoc (locOf c)).2.2) ∧
+    (run c [.casSelectLost, .injRecv]).queue.map Ev.wire =
+      c.queue.map Ev.wire ++ injectsOf (commitSelectLostLoc (locOf c)).2.2 := by
+  have h := commitSelectLostLoc_model c hst hp
+  refine ⟨by rw [commitSelectLost_gen_loc s0 _ hok hd, h.1], ?_⟩
+  rw [h.2.1, h.2.2.1]; split <;> simp
+
+/-- The order inside the commits: counters first, CAS second, inject (or roll-back) last. -/
+theorem commit_traces (l : Loc) :
+    (commitConnectedLoc { l with st := .NC }).2.2 =
+      [.atomic "supervisor.generation" "Add" [.int 1], .atomic "supervisor.dwell" "Add" [.int 1],
+       .atomic "supervisor.state" "CompareAndSwap" [.int 0, .int 1], .call "hsms.supervisor.inject" [.int 0]] ∧
+    (commitSelectLostLoc { l with st := .NS }).2.2 =
+      [.atomic "supervisor.deselectPending" "Add" [.int 1], .atomic "supervisor.dwell" "Add" [.int 1],
+       .atomic "supervisor.state" "CompareAndSwap" [.int 2, .int 1],
+       .atomic "supervisor.deselectPending" "Add" [.int (-1)],
+       .atomic "supervisor.dwell" "Add" [.int 18446744073709551615]] := by
+  constructor <;> simp [commitConnectedLoc, commitSelectLostLoc, stV, Ev.wire, Ev.tag, Ev.toNat, minus1U64]
+
+/-- **`inject_disconnect_gen` / `inject_t7_gen`.** The injectors load the generation (dwell) and inject the event
+    tagged with it: exactly the event the model's `inject` action enqueues. -/
+theorem inject_disconnect_gen (s0 : Gen.hsms_supervisor) (c : Cfg) (hst : c.stopped = false)
+    (hg : c.gen + 1 < 2 ^ 56) :
+    injectsOf (Gen.hsms_supervisor_injectDisconnect ((locOf c).enc s0)) = [(Inj.disc.toEv c).wire] ∧
+    (run c [.inject .disc]).queue = c.queue ++ [Inj.disc.toEv c] := by
+  rw [injectDisconnect_gen_loc s0 (locOf c) hg]
+  exact ⟨(injectLoc_model c .disc hst).2, (injectLoc_model c .disc hst).1⟩
+
+theorem inject_t7_gen (s0 : Gen.hsms_supervisor) (c : Cfg) (hst : c.stopped = false)
+    (hw : c.dwell + 1 < 2 ^ 56) :
+    injectsOf (Gen.hsms_supervisor_injectT7Timeout ((locOf c).enc s0)) = [(Inj.t7.toEv c).wire] ∧
+    (run c [.inject .t7]).queue = c.queue ++ [Inj.t7.toEv c] := by
+  rw [injectT7Timeout_gen_loc s0 (locOf c) hw]
+  exact ⟨(injectLoc_model c .t7 hst).2, (injectLoc_model c .t7 hst).1⟩
+
+/-- **`event_tag_gen`.** `split` undoes `withTag` (kind below 256, tag below 2^56 - 1): what an injector tags is
+    what `step` compares with the counter. -/
+theorem event_tag_gen (k seq : Nat) (hk : k < 256) (hs : seq + 1 < 2 ^ 56) :
+    Gen.hsms_fsmEvent_split (Gen.hsms_fsmEvent_withTag (k : Int) (seq : Int)) = ((k : Int), (seq : Int), true) :=
+  split_withTag_gen k seq hk hs
+
+/-- Non-vacuity: the initial configuration after a TCP-up commit satisfies every hypothesis of `step_gen`. -/
+example : let c := run init [.casConnected, .injStart]
+    c.stopped = false ∧ c.pc = .idle ∧ c.queue = [.tcpUp] ∧ (locOf c).ok ∧ Ev.tcpUp.tagOk := by
+  refine ⟨rfl, rfl, rfl, ?_, trivial⟩
+  simp [Loc.ok, locOf, deselCount, run, step, stepLive, init]
 
 /-! ## The property -/
 
